@@ -34,6 +34,8 @@ type scenario struct {
 }
 
 type scenObs struct {
+	// pairs of the stored configuration that performed no Converge step of the running generation (see checkRunning)
+	RunViolations []string `json:"run_violations,omitempty"`
 	// direct oracles evaluated at the moment a Restart call returns (see checkReturn)
 	ReturnViolations []string `json:"return_violations,omitempty"`
 	Crashed          bool     `json:"crashed"`
@@ -69,6 +71,7 @@ type child struct {
 	blockedLoad int
 	release     chan struct{}
 	epoch       int // number of releases so far
+	started     bool
 
 	nGood   int  // database integrations stored so far that load
 	bad     bool // the stored configuration contains the integration that does not load
@@ -215,11 +218,65 @@ func (c *child) collect() {
 			c.obs.Restarts = append(c.obs.Restarts, 2)
 		}
 	}
+	hung := false
+	for _, r := range c.obs.Restarts {
+		if r == 2 {
+			hung = true
+		}
+	}
 	c.pending = nil
 	if n := c.nTasksStored(); n >= 0 {
 		c.curN = n
 	} else {
 		c.curN = 0
+	}
+	if !hung {
+		c.checkRunning("after the Restart calls returned")
+	}
+}
+
+// checkRunning is the direct oracle of "the set of running tasks is exactly
+// one per enabled integration and referenced source": when no Restart is
+// pending, nothing is held and the stored configuration loads, EVERY configured
+// (source, integration) pair must perform a Converge step of the generation
+// that is running now -- its position query (the first statement of every
+// Converge) must arrive at the database after this moment.  Event driven; the
+// timeout only bounds the failing case.
+func (c *child) checkRunning(when string) {
+	c.mu.Lock()
+	skip := !c.started || c.bad || c.holdTasks || c.holdLoad || c.obs.Crashed
+	c.mu.Unlock()
+	if skip {
+		return
+	}
+	want := map[string]bool{"fsrc/fig": true}
+	for k := 1; k <= c.nGood; k++ {
+		want[fmt.Sprintf("fsrc/dbig%d", k)] = true
+	}
+	since := c.srv.LogLen()
+	seen := map[string]bool{}
+	deadline := time.Now().Add(8 * time.Second)
+	for len(seen) < len(want) && time.Now().Before(deadline) {
+		log := c.srv.Log()
+		for _, e := range log[since:] {
+			if e.Kind == "select" && strings.Contains(e.SQL, stmtTask) && strings.Contains(e.SQL, "ig_name = $2") && len(e.Params) >= 2 {
+				a, ok1 := e.Params[0].(string)
+				b, ok2 := e.Params[1].(string)
+				if ok1 && ok2 && want[a+"/"+b] {
+					seen[a+"/"+b] = true
+				}
+			}
+		}
+		since = len(log)
+		if len(seen) < len(want) {
+			time.Sleep(2 * time.Millisecond)
+		}
+	}
+	for _, p := range sortedKeys(want) {
+		if !seen[p] {
+			c.obs.RunViolations = append(c.obs.RunViolations,
+				fmt.Sprintf("%s: the configured pair %s performs no Converge step (its runner is not running)", when, p))
+		}
 	}
 }
 
@@ -231,7 +288,6 @@ func (c *child) anyHold() bool {
 
 func (c *child) run(sc scenario) {
 	ctx := context.Background()
-	started := false
 	crashed := func(r any) {
 		c.obs.Crashed = true
 		c.obs.CrashMsg = fmt.Sprint(r)
@@ -265,7 +321,7 @@ func (c *child) run(sc scenario) {
 			done := make(chan struct{})
 			go c.mgr.Run(ec)
 			go func() { <-ec; close(done) }()
-			started = true
+			c.started = true
 			c.mu.Lock()
 			hl := c.holdLoad
 			c.mu.Unlock()
@@ -280,12 +336,13 @@ func (c *child) run(sc scenario) {
 				if n := c.nTasksStored(); n >= 0 {
 					c.curN = n
 				}
+				c.checkRunning("after the first Run signalled")
 			}
 		case "hold_tasks":
 			c.mu.Lock()
 			c.holdTasks = true
 			c.mu.Unlock()
-			if started && c.curN > 0 && len(c.pending) == 0 {
+			if c.started && c.curN > 0 && len(c.pending) == 0 {
 				n := c.curN
 				c.waitFor("every task to be inside a step", func() bool { return c.blockedTask >= n }, longWait)
 				// one runner per pair: exactly n goroutines are inside a step, not more
@@ -303,7 +360,7 @@ func (c *child) run(sc scenario) {
 			c.holdLoad = true
 			c.mu.Unlock()
 		case "restart":
-			if !started {
+			if !c.started {
 				continue
 			}
 			ch := make(chan int, 1)
@@ -401,7 +458,7 @@ func (c *child) run(sc scenario) {
 	}
 	c.obs.FinalPairs = sortedKeys(pairs)
 	want := map[string]bool{}
-	if started && !c.bad {
+	if c.started && !c.bad {
 		want["fsrc/fig"] = true
 		for k := 1; k <= c.nGood; k++ {
 			want[fmt.Sprintf("fsrc/dbig%d", k)] = true
@@ -575,6 +632,9 @@ func scenCase(sc scenario, obs scenObs, kind string) lib.Case {
 			msgs = append(msgs, fmt.Sprintf("Restart call #%d never returned", i))
 		}
 	}
+	for _, rv := range obs.RunViolations {
+		msgs = append(msgs, rv)
+	}
 	for _, rv := range obs.ReturnViolations {
 		msgs = append(msgs, rv)
 	}
@@ -699,9 +759,13 @@ func genScenario(r *lib.RNG) scenario {
 func validScenario(sc scenario) bool {
 	started, bad, inHold, curN := false, false, false, 0
 	pendingHoldLoad := false
-	for _, o := range sc.Ops {
+	for i, o := range sc.Ops {
 		switch o.Op {
 		case "store":
+			// what is stored must be loaded by somebody: the first Run, or a Restart called right after
+			if started && (i+1 >= len(sc.Ops) || sc.Ops[i+1].Op != "restart") {
+				return false
+			}
 			bad = !o.Good
 		case "hold_load":
 			if started || pendingHoldLoad || inHold {
